@@ -16,6 +16,7 @@ from ..orch import h
 from .c02 import filter_features
 
 ID = "C11"
+TECHNIQUE = "runtime monitoring - metamorphic monitor over pairs of real query executions: adding / deleting certified non-matching neighbours, adding a condition, shrinking the window, splitting multi-value conditions; neighbours generated at the scanners' key boundaries"
 LEVEL = "exploration"
 RULE = (
     "cases = (backend, seeded base store of 30-70 events, base filter of 1-3 well-formed conditions, relation). "
